@@ -314,8 +314,10 @@ func drawBlock(r *common.Rand, small bool) (uint64, int, int) {
 }
 
 func gen(g *common.Gen) {
+	// consecutive VERIF_SEEDs give splitmix streams shifted by one draw; spread them out
+	root := common.NewRand((common.Seed() + 1) * 0xD1342543DE82EF95)
 	for i := 0; i < g.N; i++ {
-		r := g.R.Fork()
+		r := root.Fork()
 		kind := "fw"
 		if i%4 == 3 {
 			kind = "app"
